@@ -92,6 +92,9 @@ func (this *PlanarYUVLuminanceSource) IsCropSupported() bool {
 }
 
 func (this *PlanarYUVLuminanceSource) Crop(left, top, width, height int) (LuminanceSource, error) {
+	if left < 0 || top < 0 {
+		return nil, errors.New("IllegalArgumentException: Crop rectangle does not fit within image data")
+	}
 	return NewPlanarYUVLuminanceSource(
 		this.yuvData,
 		this.dataWidth,
